@@ -1460,6 +1460,15 @@ class AbsInt:
                         return None
                     return r if last != 'map' else ('agg', 'core::option::Option', 'Some', (r,))
             return None
+        if name.endswith('Option::<T>::map_or') and len(argvals) == 3:
+            a0 = argvals[0]
+            clo = self._deref_val(env, argvals[2])
+            if a0[0] == 'agg' and a0[1] == 'core::option::Option':
+                if a0[2] == 'None':
+                    return argvals[1]
+                if a0[2] == 'Some' and a0[3] and isinstance(clo, tuple) and clo and clo[0] == 'closure':
+                    return self.apply_closure_value(env, clo, [a0[3][0]])
+            return None
         if name.endswith(('Option::<T>::copied', 'Option::<T>::cloned', 'Option::<&T>::copied', 'Option::<&T>::cloned')) and len(argvals) == 1:
             a0 = argvals[0]
             if a0[0] == 'agg' and a0[1] == 'core::option::Option':
@@ -1701,7 +1710,7 @@ class AbsInt:
                         res = ('agg', 'core::result::Result', 'Ok', argvals[0][3])
                     else:
                         res = ('agg', 'core::result::Result', 'Err', (('call', name, argvals, b),))
-                if res is None and len(argvals) == 2 and name.endswith(('PartialEq>::eq', 'PartialEq::eq', 'PartialEq>::ne', 'PartialEq::ne', 'PartialEq<&B> for &A>::eq', 'PartialEq<&B> for &A>::ne')):
+                if res is None and len(argvals) == 2 and name.endswith(('PartialEq>::eq', 'PartialEq::eq', 'PartialEq>::ne', 'PartialEq::ne', 'PartialEq<&B> for &A>::eq', 'PartialEq<&B> for &A>::ne', 'PartialEq for str>::eq', 'PartialEq for str>::ne')):
                     # comparison of two known field-less enum values (derived PartialEq compares the discriminants)
                     ab = []
                     for a_ in argvals:
@@ -1717,7 +1726,9 @@ class AbsInt:
                         if a_[0] == 'agg' and a_[2] and not a_[3] and a_[1] in self.facts.adts:
                             a_ = ('enum', a_[1], a_[2])          # a field-less variant written out (`Operator::Add` in a constant table)
                         ab.append(a_)
-                    if ab[0][0] == 'enum' and ab[1][0] == 'enum' and ab[0][1] == ab[1][1]:
+                    if ab[0][0] == 'str' and ab[1][0] == 'str':
+                        res = ('int', int((ab[0][1] == ab[1][1]) != name.endswith('ne')), 'bool')        # two string literals
+                    elif ab[0][0] == 'enum' and ab[1][0] == 'enum' and ab[0][1] == ab[1][1]:
                         eq_ = ab[0][2] == ab[1][2]
                         res = ('int', int(eq_ != name.endswith('ne')), 'bool')
                     elif name.startswith(('<core::option::Option<', 'core::cmp::')) or 'core::option::Option' in name:
